@@ -175,3 +175,31 @@ Proof.
     rewrite <- (sizes_sum_firstn blocks block_sizes k Hsz).
     eapply frame_block_identical; eauto.
 Qed.
+
+(* known finding (known/C16.txt, class version_negative_component): a negative version component is
+   accepted and read back as another number *)
+Lemma version_negative_refuted : exists f b b',
+  find_field AlayLayout.gs_table "version"%string = Some f /\
+  length b = AlayLayout.gs_size /\ bytes b /\
+  set AlayLayout.env_default f (VPair 1 (-1)) b = Some b' /\
+  get f b' = Some (VPair 1 255).
+Proof.
+  eexists. exists (repeat 0 25). eexists.
+  split; [vm_compute; reflexivity|]. split; [reflexivity|]. split; [apply bytesb_spec; reflexivity|].
+  split; vm_compute; reflexivity.
+Qed.
+
+(* the pinned (unfixed) general-status accessors: the view is most-significant-bit first inside each
+   byte while the write-back assumes bit order; such a field is rejected by [field_ok], and for good
+   reason: on the all-zero block the bit just set is not read back, and a second assignment moves it *)
+Definition pinned_EStop : field := {| fname := "EStop_Device"; foff := 9; flen := 1; fkind := KBit 9 4 0 MsbPerByte |}.
+Definition pinned_ES_SP : field := {| fname := "ES_SP"; foff := 9; flen := 1; fkind := KBit 9 4 1 MsbPerByte |}.
+
+Lemma pinned_interlock_refuted :
+  field_ok 25 pinned_EStop = false /\
+  exists b1 b2,
+    set AlayLayout.env_default pinned_EStop (VBool true) (repeat 0 25) = Some b1 /\
+    get pinned_EStop b1 = Some (VBool false) /\
+    set AlayLayout.env_default pinned_ES_SP (VBool true) b1 = Some b2 /\
+    get pinned_EStop b2 = Some (VBool true) /\ get pinned_ES_SP b2 = Some (VBool false).
+Proof. split; [reflexivity|]. eexists. eexists. repeat split; vm_compute; reflexivity. Qed.
